@@ -1,4 +1,4 @@
-(* C14 phase 2: agreement of the two reader models on modules without blackbox instances (part D1) *)
+(* C14 phase 2: agreement of the two reader models on the documented subset (part D1) *)
 From stdpp Require Import strings gmap sets pretty.
 From CG Require Import Model.FastVerilog.
 Open Scope string_scope.
